@@ -5,7 +5,9 @@ import (
 	"encoding/hex"
 	"errors"
 	"fmt"
+	"io"
 	"strings"
+	"testing/iotest"
 
 	"github.com/ipld/go-ipld-prime/codec/dagcbor"
 	"github.com/ipld/go-ipld-prime/node/basicnode"
@@ -46,11 +48,43 @@ func classifyDecodeErr(err error) string {
 }
 
 // c03Impl decodes bs with the given options into a generic builder.
+// c03Reader: the same bytes through readers of different legal behaviour (everything at once; the last chunk together
+// with io.EOF; one byte per call; half of what is asked for) - chosen by the input, so a case line determines it.
+func c03Reader(bs []byte, variant int) (io.Reader, string) {
+	switch variant % 4 {
+	case 1:
+		return iotest.DataErrReader(bytes.NewReader(bs)), "data+EOF"
+	case 2:
+		return iotest.OneByteReader(bytes.NewReader(bs)), "one-byte"
+	case 3:
+		return iotest.HalfReader(bytes.NewReader(bs)), "half"
+	}
+	return bytes.NewReader(bs), "plain"
+}
+
 func c03Impl(opts dagcbor.DecodeOptions, bs []byte) string {
+	first := c03ImplVia(opts, bs, 0)
+	h := 0
+	for _, x := range bs {
+		h = h*31 + int(x)
+	}
+	if h < 0 {
+		h = -h
+	}
+	v := 1 + h%3
+	if other := c03ImplVia(opts, bs, v); other != first {
+		_, name := c03Reader(nil, v)
+		return first + "   BUT through a " + name + " reader: " + other
+	}
+	return first
+}
+
+func c03ImplVia(opts dagcbor.DecodeOptions, bs []byte, variant int) string {
 	var out string
 	err, panicked, pv := core.Catch(func() error {
 		nb := basicnode.Prototype.Any.NewBuilder()
-		if err := opts.Decode(nb, bytes.NewReader(bs)); err != nil {
+		rd, _ := c03Reader(bs, variant)
+		if err := opts.Decode(nb, rd); err != nil {
 			out = "err " + classifyDecodeErr(err)
 			return nil
 		}
